@@ -229,6 +229,12 @@ AlphaErrors ==
   ErrorLeaves \cup {MK0, MK1, PR, CMD("f"), DEFN("f"), FOR("ab"), T0("seq"), T0("and"), T0("or"),
                     T0("not"), T0("sub"), T0("pipe"), T0("if"), T0("while"), TICK}
 
+\* C10: the same, fewer tokens, for a larger size bound
+AlphaErrors5 ==
+  {T0("asg"), T0("exp"), T0("dot"), CW(T0("dot")), RXE(T0("nop")), RXE(MK0), RXE(CMD("f")), BRK(0),
+   CMD("nosuch"), T0("rx"), MK0, MK1, CMD("f"), DEFN("f"), T0("seq"), T0("and"), T0("not"), T0("sub"),
+   T0("if")}
+
 \* C10: syntax error on a later line
 AlphaSyn ==
   {MK0, MK1, PR, EXIT(4), T0("asg"), CMD("nosuch"), T0("seq"), T0("and"), T0("sub"), T0("if"),
